@@ -12,7 +12,7 @@ data  = {"groups": [[id, name]], "students": [[id, name, note_or_null, group_id_
 steps = [["get", var, "S"|"G"|"C", pk], ["select", var, "S"|"G"|"C", [pks] | null], ["ref", var, src_var, "group"],
          ["attr", src_var, attr], ["coll", src_var, coll, "list"|"len"|"count"|"is_empty"|"contains"|"bool", operand?],
          ["each", list_var, attr | [coll, how]], ["add" | "remove" | "add_rev" | "remove_rev", s_var, c_pk]  (operands from the identity map: no SQL),
-         ["set_group", s_var, g_id_or_null],
+         ["set_group", s_var, g_id_or_null], ["gadd" | "gremove", g_var, s_pk]  (one-to-many collection changed from the group side),
          ["flush"]]
 """
 import json, sys
@@ -152,6 +152,13 @@ def run_program(db, regime, steps):
                         elif op == 'remove': s_obj.courses.remove(c_obj)
                         elif op == 'add_rev': c_obj.students.add(s_obj)         # the same link, changed from the other side
                         else: c_obj.students.remove(s_obj)
+                    observe(f)
+                elif op in ('gadd', 'gremove'):
+                    def f():
+                        g_obj = env.get(st[1]); s_obj = cached(db.S, st[2])
+                        if g_obj is None or s_obj is None or not isinstance(g_obj, db.G): return 'no such object'
+                        if op == 'gadd': g_obj.students.add(s_obj)
+                        else: g_obj.students.remove(s_obj)
                     observe(f)
                 elif op == 'set_group':
                     def f():
@@ -319,10 +326,59 @@ def run_coll_history(h):
     return out
 
 
+def run_coll_history_o2m(h):
+    """One owner (group 1) and its one-to-many `students` collection; items are students 0..n-1 (all loaded first, so their `group`
+    attribute is in _vals_: Set.load(obj, items) has nothing to ask).  ops: len | iter | count | is_empty | contains i | add i | remove i |
+    flush | other_len.  rows = students whose group column is 1 (raw cursor)."""
+    regime = h['regime']
+    db = get_db(regime)
+    n = h['courses']
+    with orm.db_session:
+        g1 = db.G(id=1, name='g1'); g2 = db.G(id=2, name='g2')
+        for i in range(n):
+            db.S(id=i + 1, name='s%d' % i, group=(g1 if i in h['rows'] else (g2 if i % 2 else None)))
+    out = []
+    with orm.db_session:
+        con = db.get_connection()
+        g = db.G.get(id=1); g_other = db.G.get(id=2)
+        if h['preload'] == 'full': list(g.students)
+        sobj = {x.id - 1: x for x in db.S.select()[:]}
+        attr = db.G.students
+        def snap():
+            sd = g._vals_.get(attr)
+            rows = sorted(r[0] - 1 for r in con.execute('select id from S where "group" = 1').fetchall())
+            if sd is None: return rows, None
+            ix = lambda xs: sorted(x.id - 1 for x in xs)
+            return rows, {'items': ix(sd), 'full': bool(sd.is_fully_loaded), 'added': ix(sd.added or ()), 'removed': ix(sd.removed or ()),
+                          'absent': None if sd.absent is None else ix(sd.absent), 'count': sd.count}
+        for op in h['ops']:
+            before = snap()
+            try:
+                k = op[0]
+                if k == 'len': r = len(g.students)
+                elif k == 'iter': r = sorted(x.id - 1 for x in g.students)
+                elif k == 'count': r = g.students.count()
+                elif k == 'is_empty': r = g.students.is_empty()
+                elif k == 'contains': r = sobj[op[1]] in g.students
+                elif k == 'add': r = g.students.add(sobj[op[1]])
+                elif k == 'remove': r = g.students.remove(sobj[op[1]])
+                elif k == 'add_rev': sobj[op[1]].group = g; r = None
+                elif k == 'remove_rev': sobj[op[1]].group = None; r = None
+                elif k == 'flush': r = orm.flush()
+                elif k == 'other_len': r = len(g_other.students)
+                else: raise ValueError(k)
+                res = ['v', r]
+            except Exception as e:
+                res = ['exc', type(e).__name__]
+            out.append({'op': op, 'before': before, 'result': res, 'after': snap()})
+        orm.rollback()
+    return out
+
+
 def main():
     payload = json.load(sys.stdin)
     res = {'criteria': run_criteria(payload.get('criteria', [])), 'programs': run_programs(payload.get('programs', [])),
-           'sql': run_sql_semantics(payload.get('sql', [])), 'colls': [run_coll_history(h) for h in payload.get('colls', [])]}
+           'sql': run_sql_semantics(payload.get('sql', [])), 'colls': [(run_coll_history_o2m(h) if h.get('kind') == 'o2m' else run_coll_history(h)) for h in payload.get('colls', [])]}
     sys.stdout.write('\n@@JSON@@' + json.dumps(res))
 
 
